@@ -1218,10 +1218,15 @@ int main(void) {
 #endif
 #ifdef P_C06
   { int X = st_child[0][pre_a[0]];                                /* the active sub-state of the root region */
-    int headS = dec_of[0] == 0x1000, headF = dec_of[0] == 0x2000, subS = dec_of[X] == 0x1000, subF = dec_of[X] == 0x2000;
+    /* succeed()/fail() of the ROOT state are no-ops in the library (the root has no enclosing plan to report to): for a
+       plan on the root region the head therefore never has a status of its own */
+    int headS = 0, headF = 0, subS = dec_of[X] == 0x1000, subF = dec_of[X] == 0x2000;
     int ex_n = 0, ex_d[2], ex_k[2], fired[2] = {0, 0};
     if (!headS && !headF && pl_exists && subS && !subF) {
-      for (int i = 0; i < 2; i++) { if (i >= pl_n) break; if (pl_o[i] != X) break; ex_d[ex_n] = pl_d[i]; ex_k[ex_n] = pl_k[i]; fired[i] = 1; ex_n++; }
+      for (int i = 0; i < 2; i++) { if (i >= pl_n) break; if (pl_o[i] != X) break; ex_d[ex_n] = pl_d[i]; ex_k[ex_n] = pl_k[i]; fired[i] = 1; ex_n++;
+        /* a cyclic task (origin == destination) re-enters its origin: the success that fired it is consumed, later tasks
+           with the same origin wait for the NEXT success (the statement's "never twice" for one success mark) */
+        if (pl_o[i] == pl_d[i]) break; }
     }
     int wantS = !headS && !headF && pl_exists && subS && !subF && pl_n == 0;
     int wantF = !headS && !headF && pl_exists && subF;
